@@ -89,6 +89,17 @@ CHECKS = {
             "the other sinks still receive every event",
             "hooks raise subclasses of Exception; scenario space bounded by spec/RetryMC_C15x.cfg and PolicyMC_C15x.cfg",
             "5/C15"),
+    "C17": ("model_checking",
+            "systematic enumeration of line-level thread interleavings of the real Budget / CircuitBreaker methods "
+            "under a deterministic scheduler (sys.settrace + scheduler-controlled replacement of the instance lock, "
+            "pre-emption bounding); every distinct concurrent history is judged by TLC (LinCheck.tla) for "
+            "linearizability against the sequential specifications Breaker.tla / Budget.tla, plus deadlock detection",
+            "all schedules within the pre-emption bound for 18 small concurrent programs from relevant initial states "
+            "yield histories (per-thread results, sequential epilogue exposing hidden state, final state) equal to "
+            "some sequential order; no schedule deadlocks",
+            "pre-emption before every source line of circuit.py/budget.py (not inside a line); constant clock during "
+            "the concurrent phase; pre-emption bound 2 (quick) / 3 (thorough)",
+            "5/C17"),
     "C06": ("model_checking",
             "TLC exhaustive check of Breaker.tla (deque model M vs unpruned-log reference P) + replay of "
             "every transition of M's exported graph on the real CircuitBreaker + TLC trace validation "
